@@ -33,7 +33,7 @@ TIERS = {
         junk=[dict(tag="j1", stmts="MC_Cover", vocab="MC_FullVocab", vocab2="MC_Vocab2", max_junk=1, max_tail=1)],
         seq_len=2, random=30000),
     "thorough": dict(
-        junk=[dict(tag="j1", stmts="MC_Cover", vocab="MC_FullVocab", vocab2="MC_Vocab2", max_junk=1, max_tail=4),
+        junk=[dict(tag="j1", stmts="MC_Cover", vocab="MC_FullVocab", vocab2="MC_Vocab2", max_junk=1, max_tail=8),
               dict(tag="j2", stmts="MC_CoverSmall", vocab="MC_Vocab2", vocab2="MC_Vocab2", max_junk=2, max_tail=1)],
         seq_len=3, random=400000),
 }
@@ -139,6 +139,15 @@ def _run(ctx, pool):
         with lock:
             for out in res["outs"]:
                 record(out, req.get("toks") or req.get("raw"))
+
+    # ---- the machine itself (design level; a failure here is a machinery problem, never a verdict):
+    # every junk-free reachable state is a truncation of the picked statement's token sequence
+    san = vlib.run_tlc(ctx, "SqlGrammarMC", "SqlGrammarMC_machine.cfg", tag="machine", timeout=600,
+                       cfg_text=fe.cfg("S", sorted(fe.SLICE_NAMES), stmts="MC_Cover", emit="off",
+                                       invariants=("TypeOK", "TruncationInv", "ConditionsExpressible", "GrammarUsesOnly")))
+    vlib.tlc_must_ok(ctx, san, "SqlGrammarMC machine invariants")
+    configs.append(dict(run="machine invariants (TypeOK, TruncationInv, ConditionsExpressible, GrammarUsesOnly), no junk",
+                        distinct_states=san.distinct, generated=san.generated, tlc_wall_s=round(san.wall, 1)))
 
     # ---- (a) + (b): truncations of valid statements, with junk
     for j in tier["junk"]:
